@@ -158,6 +158,8 @@ class FSym(AbstractValue):
 
     def v_binop(self, op, other, reflected, it):
         if op == "pow" and not reflected and isinstance(other, int):
+            if 0 <= other <= 8 and self.powered is None:
+                return FSym({k: v * other for k, v in self.e.items()})       # a small power is a repeated product
             it.emit("final_power", exponent=other, value=self)
             return FSym(self.e, other if self.powered is None else self.powered * other)
         o = other
